@@ -52,6 +52,9 @@ def _ctx():
     return _G['index'], _G['reg']
 
 
+TASK_BUDGET = 8      # paths per work unit before the rest of its subtree is handed back for rescheduling
+
+
 def _task(args):
     """Explore one subtree (decision prefix) of one contract and discharge its obligations. Returns picklable data."""
     name, prop, prefix, timeout_s, both, excludes, max_paths = args
@@ -61,7 +64,7 @@ def _task(args):
         from pyvc import verify
         index, reg = _ctx()
         ci = REGISTRY[name]
-        rep, obs = verify.explore_prefix(index, reg, ci, prop, prefix, excludes, max_paths)
+        rep, obs = verify.explore_prefix(index, reg, ci, prop, prefix, excludes, max_paths, budget=TASK_BUDGET)
         t1 = time.time()
         verify.discharge(rep, obs, os.path.join(OUT, 'smt', prop), timeout_s, both)
         items = []
@@ -73,7 +76,7 @@ def _task(args):
                               raw=(q.raw[:600] if q.verdict != q.expect else '')))
         return dict(name=name, prefix=prefix, paths=rep.paths, infeasible=rep.infeasible, unsupported=rep.unsupported,
                     inlined=sorted(rep.inlined), contract_uses=sorted(rep.contract_uses), items=items, source_hash=rep.source_hash,
-                    symex_s=t1 - t0, solve_s=time.time() - t1, error=None)
+                    symex_s=t1 - t0, solve_s=time.time() - t1, error=None, leftover=rep.leftover, args=args)
     except Exception as e:
         return dict(name=name, prefix=prefix, paths=0, infeasible=0, unsupported=[], inlined=[], contract_uses=[], items=[],
                     source_hash='', symex_s=time.time() - t0, solve_s=0, error=traceback.format_exc())
@@ -184,7 +187,23 @@ def run_property(prop: str, tier: str = 'quick', seed: int = 0, only=None, jobs:
         for c in range(chunks):
             btasks.append((ci.name, n_samples // chunks, seed * 1000003 + c))
     with ctx.Pool(jobs) as pool:
-        results = pool.map(_task, tasks, chunksize=1) if tasks else []
+        # work units hand back the subtrees they did not enter within their path budget: these become new units
+        pending = [pool.apply_async(_task, (t,)) for t in tasks]
+        results = []
+        while pending:
+            still = []
+            for h in pending:
+                if not h.ready():
+                    still.append(h)
+                    continue
+                r = h.get()
+                results.append(r)
+                for lp in r.get('leftover') or []:
+                    a = r['args']
+                    still.append(pool.apply_async(_task, ((a[0], a[1], lp) + tuple(a[3:]),)))
+            pending = still
+            if pending:
+                time.sleep(0.02)
         bresults = pool.map(_btask, btasks, chunksize=1) if btasks else []
     return aggregate(prop, tier, seed, contracts, results, split_errors, known, t_start, assumed, bounded_cis, bresults)
 
@@ -227,7 +246,12 @@ def aggregate(prop, tier, seed, contracts, results, split_errors, known, t_start
         for it in p['items']:
             uniq.setdefault((it['full_id'], it['hash']), it)
         n_ok = 0
+        some_cover = any(it['kind'] == 'cover' and it['verdict'] == 'sat' for it in uniq.values())
         for it in uniq.values():
+            if it['kind'] == 'cover' and it['verdict'] == 'unsat' and some_cover:
+                # this path contradicts the precondition (only the solver saw it): an infeasible path, not a vacuous contract --
+                # the precondition is satisfiable on another path
+                continue
             obligations += 1
             solver_time += it['time_s']
             if it['verdict'] == it['expect']:
